@@ -1,5 +1,5 @@
 (* Cmp.v — the two range-comparison helpers of inner.rs and small pattern lemmas. *)
-From JV Require Import Sem Gen Spec.
+From JV Require Import Sem Gen Spec SpecX.
 From JV.Proofs Require Import SpecFacts Cal.
 Open Scope Z_scope.
 Ltac Zify.zify_post_hook ::= Z.to_euclidean_division_equations.
